@@ -174,6 +174,11 @@ TCtxEnd == Is("CtxEnd") /\ Step /\ Same /\ CtxEnd(Ev.cause)
 TNodeDown == /\ IsN("NodeDown") /\ Step /\ UNCHANGED <<vars, hq, hstart, qfSeen, endSeen, hfail, cnt, bad>>
              /\ downed' = downed \cup {Ev.node}
 
+\* C07: a stopped node came back, the library re-created the stream, and the node was
+\* stopped again: nothing of this concerns a call that has had the node's error already
+TNodeFlap == /\ IsN("NodeFlap") /\ Step /\ Ev.node \in downed
+             /\ UNCHANGED <<vars, hq, hstart, qfSeen, endSeen, hfail, downed, cnt, bad>>
+
 \* C07: every error of the call names its node; a handler failure carries the
 \* handler's status code and message, a connection failure does not (any
 \* transport error is accepted: the check demands no particular code)
@@ -245,7 +250,7 @@ TQuiescent ==
 
 TNormal == TCallStart \/ TCallSkip \/ TEnqBegin \/ TCallEnq \/ TCallIssued
          \/ THStart \/ THReply \/ THFail \/ THEnd \/ TRoute \/ TCallRecv \/ TCallConfirm
-         \/ TQF \/ TCorrPublish \/ TCallLoop \/ TCallEnd \/ TCtxEnd \/ TNodeDown \/ TStubRet
+         \/ TQF \/ TCorrPublish \/ TCallLoop \/ TCallEnd \/ TCtxEnd \/ TNodeDown \/ TNodeFlap \/ TStubRet
          \/ TObsAsync \/ TObsCorr \/ TQuiescent
 
 \* An event that no action matches: the scenario is reported (the checker reads
